@@ -308,6 +308,8 @@ impl<TActor: ThreadLocalActor> ThreadLocalActorRuntime<TActor> {
                 ));
             }
         }
+        #[cfg(ractor_verif)]
+        crate::verif::emit("tl.start", actor_ref.get_id().pid(), 0);
         // Generate the ActorRef which will be returned
         let spawn_name = name.clone();
         let myself_ret = actor_ref.clone();
